@@ -1,9 +1,32 @@
 (* C08 — The created container does not depend on how compression workers are scheduled (PARTIAL:
    the worker/writer protocol is modelled and proved; real scheduler behaviour is only observed).
-   Proofs in Conc/ClusterWriter.v and Content/Cluster.v. *)
-From Coq Require Import List Arith Bool Permutation.
-From Jbk Require Import Conc.ClusterWriter.
+   Proofs in Conc/ClusterWriter.v, Content/Cluster.v and Content/FilePack.v (placement independence). *)
+From Coq Require Import List Arith NArith Bool Permutation.
+From Jbk Require Import Base.Parser Base.Prog Format.Structs Content.Cluster Content.Pack Content.FilePack Conc.ClusterWriter.
 Import ListNotations.
+
+(* Whatever the completion order of the workers did to the positions of the clusters in the file (the
+   pointer of each cluster says where it landed): two runs of the same insertions that placed the
+   clusters differently both read every uncompressed content back as its own bytes. *)
+Theorem C08_any_placement_reads_the_same :
+  forall (ops : list (list N * bool)) f1 base1 h1 ch1 clusters1 f2 base2 h2 ch2 clusters2 i x,
+    let s := fold_left (Cluster.add (list N) lenN) ops (Cluster.init (list N)) in
+    content_pack_at f1 base1 h1 ch1 (map info_of (Cluster.infos (list N) s)) clusters1 ->
+    content_pack_at f2 base2 h2 ch2 (map info_of (Cluster.infos (list N) s)) clusters2 ->
+    Forall2 cluster_matches (Cluster.cs (list N) s) clusters1 ->
+    Forall2 cluster_matches (Cluster.cs (list N) s) clusters2 ->
+    (N.of_nat (length (Cluster.cs (list N) s)) <= 2 ^ 20)%N ->
+    nth_error ops i = Some (x, false) ->
+    exists p1 p2 k1 j1 off1 k2 j2 off2,
+      run f1 (cp_open_p base1) = Ok p1 /\ run f2 (cp_open_p base2) = Ok p2 /\
+      run f1 (cp_read_p p1 (N.of_nat i)) = Ok (Some (k1, j1, CRaw off1 (lenN x), Some x)) /\
+      run f2 (cp_read_p p2 (N.of_nat i)) = Ok (Some (k2, j2, CRaw off2 (lenN x), Some x)).
+Proof.
+  intros ops f1 base1 h1 ch1 clusters1 f2 base2 h2 ch2 clusters2 i x s P1 P2 M1 M2 L H.
+  destruct (stored_content_reads_back ops f1 base1 h1 ch1 clusters1 i x P1 M1 L H) as (k1 & j1 & o1 & p1 & O1 & R1).
+  destruct (stored_content_reads_back ops f2 base2 h2 ch2 clusters2 i x P2 M2 L H) as (k2 & j2 & o2 & p2 & O2 & R2).
+  exists p1, p2, k1, j1, o1, k2, j2, o2. auto.
+Qed.
 
 (* Whatever the interleaving of creator, workers and writer: when nothing is left to do, every
    cluster id has been written exactly once (the placement order is a permutation of the ids). *)
@@ -33,6 +56,7 @@ Theorem C08_accepted_trace_writes_each_cluster_once :
     exists opened written, scan evs [] [] [] = Some (opened, written) /\ Permutation written expected.
 Proof. exact accepts_written_once. Qed.
 
+Print Assumptions C08_any_placement_reads_the_same.
 Print Assumptions C08_every_cluster_written_once.
 Print Assumptions C08_backpressure_invariant.
 Print Assumptions C08_no_deadlock.
